@@ -93,7 +93,7 @@ CHECKS = {
 ADDENDA = {
     "C01": " Members whose addresses travel as 16-byte IPv4 (addresses compared as addresses).",
     "C02": " Accusations that arrive while the node has nobody to gossip to (fresh start, or every peer dead for longer than GossipToTheDeadTime): the refutation must survive the idle gossip rounds and reach the first peer that becomes known. An accusation behind a backlog of 5000 untransmitted broadcasts.",
-    "C03": " Scenario dimensions also include IPv6 addresses, a transport implementing only the older Transport interface, GossipNodes 1/6. Up to 60 members now and then.",
+    "C03": " Scenario dimensions also include IPv6 addresses, a transport implementing only the older Transport interface, GossipNodes 1/6. Up to 32 members now and then; real-time part: the library ChannelEventDelegate with a stalling consumer.",
     "C04": " Members on IPv6 addresses; delegates whose LocalState takes 0.3-2.5 s. A 72-member cluster; metadata changes announced seconds later.",
     "C05": " Veteran restarts that come back with exactly the metadata they crashed with; IPv6 / plain-transport / GossipNodes dimensions. Departed names coming back from their old or another address (PRNG and scripted).",
     "C06": " One state exchange reporting several members suspect/dead (every suspicion it starts must run its own course); accusations at a newer incarnation than held; a refutation processed at the very moment the timer has run out (log-sink hook, no virtual time passes). Names refused by the alive delegate must not count as cluster size.",
